@@ -100,6 +100,10 @@ def cond_pol(conds, base: str, contains: bool = False):
     ``contains`` the first condition whose normalised term *contains* base is used
     (only for conjunction-free tests)."""
     from .interp import Frame
+    if not contains:
+        at = Frame.atoms(conds)
+        if base in at:
+            return at[base]
     for c in conds:
         if not c[2]:
             continue
@@ -107,3 +111,69 @@ def cond_pol(conds, base: str, contains: bool = False):
         if k == base or (contains and base in k and not k.startswith("and(") and not k.startswith("or(")):
             return pol
     return None
+
+
+def bool_atoms(t: Term, out=None) -> List[str]:
+    """Keys of the atomic tests of a boolean term (and / or / not structure removed)."""
+    out = out if out is not None else []
+    from .interp import Frame
+    head = getattr(t, "head", None)
+    if head in ("and", "or") or head == "unop:Not":
+        for a in t.args:
+            bool_atoms(a, out)
+        return out
+    k, _ = Frame.norm_cond(t.key(), True)
+    if k not in out:
+        out.append(k)
+    return out
+
+
+def eval_bool(t: Term, assign: Dict[str, bool]):
+    """Truth value of a boolean term under an assignment of its atoms (None when
+    an atom is unassigned)."""
+    from .interp import Frame
+    head = getattr(t, "head", None)
+    if head == "unop:Not":
+        v = eval_bool(t.args[0], assign)
+        return None if v is None else (not v)
+    if head in ("and", "or"):
+        vs = [eval_bool(a, assign) for a in t.args]
+        if head == "and":
+            if any(v is False for v in vs):
+                return False
+            return None if any(v is None for v in vs) else True
+        if any(v is True for v in vs):
+            return True
+        return None if any(v is None for v in vs) else False
+    k, pol = Frame.norm_cond(t.key(), True)
+    if k not in assign:
+        return None
+    return assign[k] if pol else (not assign[k])
+
+
+def forwarded_to(path: Path, op: str):
+    """The event by which an operation's path forwards ``op`` to another expression
+    first (not inside an unfolded child), or None."""
+    for e in path.events:
+        if e.kind in ("unfold", "op") and not e.via:
+            return e if (e.op == op and isinstance(e.target, New)) else None
+    return None
+
+
+def dataset_compositions(run: "Run"):
+    """[(effects_disabled polarity, composed term)]: the expression(s) a Dataset
+    forwards evaluate() to, read off the paths of Dataset.evaluate."""
+    ds = run.repo.cls("Dataset")
+    out, seen = [], set()
+    for p0 in run.paths(ds, "evaluate"):
+        e0 = forwarded_to(p0, "evaluate")
+        if e0 is None:
+            continue
+        dis = cond_pol(p0.conds, "Child(_effects_disabled)")
+        if (dis, e0.target.key()) in seen:
+            continue
+        seen.add((dis, e0.target.key()))
+        out.append((dis, e0.target))
+    if not out:
+        raise AnalysisError("Dataset.evaluate does not forward to a composed expression (anchor vanished)")
+    return out
